@@ -37,6 +37,33 @@ func NewSetWithCapacity(n int) *Set {
 	}
 }
 
+// AddItem adds item to the set like Add but returns TypeError for an
+// item which cannot be a member: the members are the keys of a Go map
+// and a key of a type that is not comparable (a tuple, bytes, a dict)
+// makes the map panic.
+func (s *Set) AddItem(item Object) (err error) {
+	defer func() {
+		if r := recover(); r != nil {
+			err = ExceptionNewf(TypeError, "unhashable type: '%s'", item.Type().Name)
+		}
+	}()
+	s.items[item] = SetValue{}
+	return nil
+}
+
+// SetFromItems makes a new set with the items passed in like
+// NewSetFromItems but returns TypeError for an item which cannot be a
+// member
+func SetFromItems(items []Object) (*Set, error) {
+	s := NewSetWithCapacity(len(items))
+	for _, item := range items {
+		if err := s.AddItem(item); err != nil {
+			return nil, err
+		}
+	}
+	return s, nil
+}
+
 // Make a new set with the items passed in
 func NewSetFromItems(items []Object) *Set {
 	s := NewSetWithCapacity(len(items))
@@ -52,7 +79,9 @@ func init() {
 		if len(args) != 1 {
 			return nil, ExceptionNewf(TypeError, "append() takes exactly one argument (%d given)", len(args))
 		}
-		setSelf.Add(args[0])
+		if err := setSelf.AddItem(args[0]); err != nil {
+			return nil, err
+		}
 		return NoneType{}, nil
 	}, 0, "add(value)")
 }
